@@ -152,6 +152,24 @@ func main() {
 			return
 		}
 		atomic.AddInt64(&validated, 1)
+		// ... also into a destination that still holds the previous row (rows are decoded one after the other into
+		// the same variable): first the fullest value of the type, then these bytes
+		if k := t.Kind(); (k == reflect.Slice || k == reflect.Array || k == reflect.Struct) && cql.IsComposite(dt) && !hasMapType(t, 0) {
+			vals := cql.Values(dt, 3, false)
+			if len(vals) > 0 {
+				if prev, ok := cql.Serialize(dt, vals[len(vals)-1], v); ok {
+					d2 := reflect.New(t)
+					if _, err, pv, _ := cql.Decode(codec, prev, d2.Interface(), v); err == nil && pv == nil {
+						wn, err, pv, _ := cql.Decode(codec, want, d2.Interface(), v)
+						if got2 := cql.Abstract(dt, d2.Elem()); pv != nil || err != nil || wn != a.IsNull() || got2.Key() != a.Key() {
+							c.Violation(keys("spec-bytes-misread-into-reused-destination"), fmt.Sprintf("%s: specification-formatted bytes %x, decoded into a destination that held %s, give %s (null=%v err=%v panic=%v)", desc, clip(want), vals[len(vals)-1], got2, wn, err, pv), desc)
+							return
+						}
+						atomic.AddInt64(&validated, 1)
+					}
+				}
+			}
+		}
 	}
 	for _, dt := range cql.ScalarTypes() {
 		reps := cql.Reps(dt)
@@ -239,4 +257,24 @@ func clip(b []byte) []byte {
 		return b[:40]
 	}
 	return b
+}
+
+// hasMapType reports whether a Go type contains a map or an interface (maps are filled in place: entries merge).
+func hasMapType(t reflect.Type, d int) bool {
+	if d > 6 {
+		return false
+	}
+	switch t.Kind() {
+	case reflect.Map, reflect.Interface:
+		return true
+	case reflect.Ptr, reflect.Slice, reflect.Array:
+		return hasMapType(t.Elem(), d+1)
+	case reflect.Struct:
+		for i := 0; i < t.NumField(); i++ {
+			if hasMapType(t.Field(i).Type, d+1) {
+				return true
+			}
+		}
+	}
+	return false
 }
